@@ -443,6 +443,12 @@ pub fn check(c: &Case) -> Verdict {
 }
 
 fn ns_exercise<R>(r: &NsReader<R>, ev: &Event) {
+    // the listing of the bindings in force can be taken at any event, whichever way (collect()
+    // asks the iterator for its size hint)
+    let (lo, hi) = r.prefixes().size_hint();
+    let listed = r.prefixes().collect::<Vec<_>>().len();
+    assert!(lo <= listed && hi.map_or(true, |h| h >= listed), "prefixes().size_hint() = ({}, {:?}) but {} bindings are listed", lo, hi, listed);
+    let _ = r.resolve_attribute(quick_xml::name::QName(b"xml:lang"));
     match ev {
         Event::Start(s) | Event::Empty(s) => {
             let _ = r.resolve_element(s.name());
